@@ -96,16 +96,32 @@ def mk0(rng, quick):
             ops.append({"op": mode, "row": row})
         elif r < 0.85:
             j = rng.choice(joins)
+            if j.get("_frozen"): continue
             row = {"loc": "U%d" % len(ops), "n": rng.choice([5, 10, 20])}
             if rng.random() < 0.25: del row["loc"]          # a table row without the column: NULL under the alias
             for c, v in zip(j["_scols"], j["_keyt"]()): row[c] = v
             ops.append({"op": "upsert", "table": j["name"], "row": row})
         elif r < 0.95:
             j = rng.choice(joins)
+            if j.get("_frozen"): continue
             ops.append({"op": "delete", "table": j["name"], "key": j["_keyt"]()})
         elif r < 0.97:     # the same source object registered once more: nothing changes (updates applied so far stay)
             j = rng.choice(joins)
+            if j.get("_frozen"): continue
             ops.append({"op": "reregsrc", "table": j["name"]})
+        elif r < 0.985 and len(joins) >= 2 and not any(o["op"] == "regrace" for o in ops):
+            # two registrations overlap (the first table's source is a slow user-defined one, still loading while the second table is
+            # registered): when both calls have returned, both tables hold their new contents - for every later row
+            j1, j2 = rng.sample(joins, 2)
+            def newrows(j, tag):
+                out = []
+                for i in range(rng.choice([1, 2])):
+                    row = {"loc": "%s%d_%d" % (tag, len(ops), i), "n": rng.choice([5, 10, 20])}
+                    for c, v in zip(j["_scols"], j["_keyt"]()): row[c] = v
+                    out.append(row)
+                return out
+            ops.append({"op": "regrace", "table": j1["name"], "rows": newrows(j1, "S"), "keys": list(j1["_scols"]), "table2": j2["name"], "rows2": newrows(j2, "F")})
+            j1["_frozen"] = True          # (a user-defined source takes no upserts / deletes through the engine's in-memory API)
         else:       # the table registered again under its name: the new contents replace the old ones for every later row
             j = rng.choice(joins)
             trows = []
@@ -129,7 +145,7 @@ def run(tier):
     conc = []
     while len(conc) < (400 if quick else 20000):
         sc = mk(rng, quick)
-        if "where" in sc["meta"] or not any(o["op"] in ("upsert", "delete") for o in sc["ops"]) or any(o["op"] in ("register", "reregsrc") for o in sc["ops"]):
+        if "where" in sc["meta"] or not any(o["op"] in ("upsert", "delete") for o in sc["ops"]) or any(o["op"] in ("register", "reregsrc", "regrace") for o in sc["ops"]):
             continue
         extra = mk(rng, quick)      # more rows and updates of the same shape: longer overlap
         for o in sc["ops"]:
